@@ -188,7 +188,12 @@ def emit_item(unit, store, relfile, path, mode):
                 continue
             pos = rsx.anchor_pos(item, anchor)
             ins.append((pos, order, anchor, text, sline))
-    ins.sort()
+    if mode == "body":
+        r7 = rsx.r7_closure_patterns(item)
+        for pos, order, text in r7:
+            ins.append((pos, order, "raw", text, 0))
+        unit.rewrites["R7"] = unit.rewrites.get("R7", 0) + len(r7) // 4
+    ins.sort(key=lambda x: (x[0], x[1]))
     attrs = list(ov.attrs) if ov else []
     if mode == "contract":
         attrs.append("#[verifier::external_body]")
@@ -213,6 +218,10 @@ def emit_item(unit, store, relfile, path, mode):
         if pos < cur:
             raise ExtractError("overlapping anchors in " + key)
         unit.add(src[cur:pos], "repo", relfile, src.count("\n", 0, cur) + 1, key)
+        if anchor == "raw":          # rewrite R7: inline, not stripped of whitespace, marked as inserted text
+            unit.add(MARK_IN + text + MARK_OUT, "marker", item=key)
+            cur = pos
+            continue
         if anchor.startswith("pre ") or anchor.startswith("post ") or anchor.startswith("closure "):
             unit.add(MARK_IN, "marker", item=key)
             unit.add(" " + text.strip() + " ", "overlay", ov.specfile, sline, key)
